@@ -20,8 +20,8 @@ claimed = {
    text="Deductive proof of the pool-size lock invariant of Transport.connsMu (for every address: active <= MaxConnsPerHost and idle <= MaxConnsPerHost - active; idle queue "
         "length <= capacity <= MaxIdleConnsPerHost; list and queue entries belong to their key) at every Unlock of getConn (all nine return paths, including the once.Do "
         "normalisation of the limits) for all interleavings (monitor rule: guarded state is havocked at Lock and only the invariant is assumed), all limits and all addresses.",
-   note=TRUST+"run, CloseIdleConnections and Close (loops over both maps) are not under contract yet, so the invariant is proved for getConn/newPersistConn/conns.Cursor only; "
-        "connQueue is an abstract data type with assumed (trusted) contracts; counts pool membership, not kernel sockets; exported limit fields are assumed not to be written after first use.",
+   note=TRUST+"the invariant is proved at every Unlock of getConn, run, CloseIdleConnections and Close (and for newPersistConn, conns.Cursor, conns.Delete, newConnQueue); "
+        "connQueue (Enqueue/Dequeue/Rear) is an abstract data type with assumed (trusted) contracts; counts pool membership, not kernel sockets; exported limit fields are assumed not to be written after first use.",
    design="5/C13", technique="contract-based deductive verification: lock invariant (Owicki-Gries monitor rule) as generated obligations at every Unlock, z3"),
  "C14": dict(
    text="Deductive proof that getConn returns only a connection whose ghost dial address equals the requested address and which was observed alive under its mutex during the call "
@@ -101,14 +101,20 @@ claimed = {
    design="5/C19", technique="contract-based deductive verification: ghost counters, ownership obligations, bounds obligations, z3"),
  "C20": dict(
    text="Deductive proof of the safety core for Conn, Client and the per-connection server loop: Conn.Close closes the codec exactly when closing was not yet set and reports ErrShutdown otherwise, the reader's exit closes every per-connection queue it owns, "
-        "NewConnWithCodec starts exactly one reader on a fresh connection, ServeCodec closes its codec exactly once after the loop and every stream and queue of the connection, Client.Close drains all waiters and closes done at most once.",
-   note=TRUST+"Transport.Close/CloseIdleConnections/run and Server.Close/listen are not under contract yet; goroutine exit and Listen returning are liveness of hslam/socket and not decided.",
+        "NewConnWithCodec starts exactly one reader on a fresh connection, ServeCodec and the poll-mode end-of-connection branch close their codec exactly once and every stream and queue of the connection, Transport.Close closes its done channel at most once and drains every idle queue, Client.Close drains all waiters and closes done at most once.",
+   note=TRUST+"Transport.Close is under contract (done closed at most once by the winner of the CAS - ghost close token; idle queues drained; lock invariant kept), Server.Close and listen's accept loop are not; goroutine exit and Listen returning are liveness of hslam/socket and not decided.",
    design="5/C20", technique="contract-based deductive verification: typestate and ghost counters, z3"),
+ "C15": dict(
+   text="Deductive proof of the safety core: the housekeeping loop (Transport.run) and CloseIdleConnections close an active connection only after NumCalls() == 0 was observed for it in the same iteration, under the pool lock (call-site assertion on every such Close), "
+        "idle queues are drained completely before their map entry is dropped (Close, CloseIdleConnections), and all three functions preserve the pool lock invariant of C13 through their nested loops (modular contract for conns.Delete, loop invariants over the map enumerations).",
+   note=TRUST+"Retirement after KeepAlive / closing after IdleConnTimeout are timing clauses and not decided; a call that obtained the connection before it was retired and sends afterwards (check-then-act outside the pool lock) is outside the contracts; connQueue is an assumed abstract data type; "
+        "'Transport.Close closes every pooled connection' is proved for the idle queues (drained) and is structural for the active lists (every element's Close is called in the loop; not stated as a postcondition).",
+   design="5/C15", technique="contract-based deductive verification: lock invariant through nested loops, call-site assertions over ghost observations, z3"),
  "C08": dict(
    text="Deductive proof of panic-freedom: every index, slice, nil-dereference, type-assertion and callee-precondition obligation generated from the "
         "header decoders and upgrade.Unmarshal is discharged for all byte strings (precondition true), and accepted fields are proved to lie inside the frame; "
-        "the obligations that fail on the pinned tree are genuine defects (truncated frames panic the four decoders; over-read behind len) replayed on the real code "
-        "and listed in known_findings.json. The dispatch path is proved panic-free for all 32 upgrade flag combinations after the fix.",
+        "the genuine defects found (truncated frames panicked the four decoders, fields could extend behind len(data); fifteen upgrade flag bytes panicked the dispatcher) were replayed on the real code and are repaired by fix: commits; "
+        "on the repaired tree every obligation discharges, and accepted header fields are proved to lie inside the frame.",
    note=TRUST+"Also covered now: the server dispatch path (ServeRequest, handleRequest, readRequestBody, callService, sendResponse, ServeCodec) for every upgrade flag byte, and the client read path (recv, read, finishCall); "
         "the fifteen crashing flag bytes found there are repaired by a fix: commit. Also covered: the poll-mode serve callback of listen. Not covered: the json header (encoding/json trusted), panics needing an interleaving beyond the lock discipline.",
    design="5/C08", technique="contract-based deductive verification (panic-freedom obligations from go/ssa, z3), counterexamples replayed via go test -overlay"),
@@ -125,7 +131,7 @@ NA = {
  "C09": "Exactly-once, in-order delivery per stream is a property of whole message histories over two hslam/scheduler queues and of a stream phase kept in an upgrade object that one thread mutates while another reads it (the design reading found a message consumed as a second ack there). "
         "The per-function contracts in reach prove routing by sequence number, the internal/stream flag relation and copy-before-release on this path (tagged C09 in the contract file), but no contract over a single call expresses 'the sequence delivered equals the sequence written', and the racy phase field would need an ownership model of the shared upgrade object that was not built. Not claimed rather than switching technique.",
  "C12": "Equality of outcomes across every network/codec/mode combination is a relational property of whole workloads over third-party transports (tcp/unix/http/ws/TLS, netpoll); a function contract cannot state it. The mode flags are universally quantified in the contracts of C01/C04/C06/C08/C11, which is the only part in reach; the Options resolution functions are not under contract.",
- "C15": "Transport.run, CloseIdleConnections and Close (nested loops over both pool maps with deletion and queue surgery) were not brought under contract in the time available, so neither 'housekeeping closes only connections observed idle' nor 'Close closes every pooled connection' is decided; connQueue is still an assumed abstract data type. No bounded stand-in is offered in its place.",
+
 }
 na=[{"property_id":p["id"],"reason":NA.get(p["id"],"check not finished: no contract decides this property yet; no other technique is substituted")} for p in props if p["id"] not in claimed]
 m={"version":1,
